@@ -65,6 +65,7 @@ type Contract struct {
 	Lets        []*LetClause // ghost lets usable in ensures
 	AtCall      []AtCallClause
 	Opaque      map[string]bool // pure callees whose postconditions this unit does not use
+	Reveal      map[string]bool // hidden spec functions whose definition this unit uses
 	Closure     int // >0: the contract is about the n-th function literal of the named function
 }
 
@@ -89,6 +90,7 @@ type SpecFunc struct {
 	Line    int
 	Trusted bool
 	Rec     bool
+	Hidden  bool // defined like rec, but the definition is only available in units that `reveal` it (uninterpreted elsewhere)
 }
 
 type SpecAxiom struct {
@@ -439,7 +441,7 @@ func firstWord(s string) string {
 }
 
 var contractKeywords = map[string]bool{"func": true, "emitted": true, "requires": true, "ensures": true, "pure": true,
-	"assume-contract": true, "modifies": true, "existing": true, "decreases": true, "loop": true, "noinline": true, "let": true, "fresh": true, "at-call": true, "closure": true, "opaque": true}
+	"assume-contract": true, "modifies": true, "existing": true, "decreases": true, "loop": true, "noinline": true, "let": true, "fresh": true, "at-call": true, "closure": true, "opaque": true, "reveal": true}
 
 func splitName(t string) (name, rest string) {
 	// optional "name:" prefix, name is an identifier with dots/brackets
@@ -562,9 +564,26 @@ func (w *World) LoadContractFile(path string, pkgShort string) error {
 					cur.Opaque[n] = true
 				}
 			}
+		case "reveal":
+			// reveal <spec function>[, ...]: this unit sees the definition of these hidden spec functions
+			for _, n := range strings.Split(rest, ",") {
+				if n = strings.TrimPrefix(strings.TrimSpace(n), "spec."); n != "" {
+					if cur.Reveal == nil {
+						cur.Reveal = map[string]bool{}
+					}
+					cur.Reveal[n] = true
+				}
+			}
 		case "at-call":
 			// at-call <callee> requires [name:] <expr>
 			f := strings.Fields(rest)
+			if strings.HasPrefix(rest, "\"") {
+				// at-call "P:<text with spaces>" requires ...  (the text is taken literally, as it is written in the source)
+				if end := strings.Index(rest[1:], "\" requires "); end >= 0 {
+					f = []string{rest[1 : 1+end], "requires", "x"}
+					rest = "q" + rest[1+end+1:]
+				}
+			}
 			if len(f) < 3 || f[1] != "requires" {
 				return fail(fmt.Errorf("at-call clause needs: at-call <callee> requires <expr>"))
 			}
@@ -731,7 +750,7 @@ func (w *World) LoadRepoContracts() error {
 // spec files
 
 var specKeywords = map[string]bool{"spec": true, "uninterp": true, "axiom": true, "lemma": true, "requires": true,
-	"ensures": true, "let": true, "canary": true, "rec": true, "trusted-spec": true, "witness": true, "call": true}
+	"ensures": true, "let": true, "canary": true, "rec": true, "hidden": true, "trusted-spec": true, "witness": true, "call": true}
 
 func (w *World) LoadSpecDir(dir string) error {
 	files, _ := filepath.Glob(filepath.Join(dir, "*.spec"))
@@ -766,7 +785,7 @@ func (w *World) LoadSpecFile(path string) error {
 		rest := strings.TrimSpace(strings.TrimPrefix(l.text, word))
 		fail := func(err error) error { return fmt.Errorf("%s:%d: %v", base, l.line, err) }
 		switch word {
-		case "spec", "rec":
+		case "spec", "rec", "hidden":
 			// spec Name(params) T = expr
 			eqi := indexTop(rest, " = ")
 			if eqi < 0 {
@@ -781,7 +800,7 @@ func (w *World) LoadSpecFile(path string) error {
 			if err != nil {
 				return fail(err)
 			}
-			w.Specs[name] = &SpecFunc{Name: name, Params: params, Result: result, Body: e, Text: l.text, File: base, Line: l.line, Trusted: trusted, Rec: word == "rec"}
+			w.Specs[name] = &SpecFunc{Name: name, Params: params, Result: result, Body: e, Text: l.text, File: base, Line: l.line, Trusted: trusted, Rec: word == "rec" || word == "hidden", Hidden: word == "hidden"}
 			cur = nil
 		case "uninterp":
 			name, params, result, err := parseSpecHead(rest)
